@@ -24,8 +24,11 @@ class Gen(ExprGen):
         self.variant_direct = self.L >= 3 and rng.chance(1, 25)
         self.empty_vararg_first = self.L >= 4 and rng.chance(1, 40)
         self.selfref_literal = self.L >= 2 and rng.chance(1, 20)
+        self.weak_lit_errunion = self.L >= 3 and rng.chance(1, 30)
+        self.unused_varargs = self.L >= 4 and rng.chance(1, 30)
+        self.array_arm_binding = self.L >= 3 and rng.chance(1, 25)
         self.fault = None
-        if self.L >= 4 and rng.chance(15, 100):
+        if self.L >= 4 and rng.chance(24, 100):
             self.fault = rng.pick(["index_array", "index_slice", "unwrap"])
         self.fault_done = False
         self.gen_types()
@@ -202,7 +205,9 @@ class Gen(ExprGen):
         rng = self.rng
         name = self.fresh("fun")
         r = rng.below(100)
-        if r < 45:
+        if r < 8:
+            ret = BOOL
+        elif r < 45:
             ret = self.scalar_ty()
         elif r < 62:
             ret = VOID
@@ -274,8 +279,21 @@ class Gen(ExprGen):
             inject.append((rng.below(n + 1), mid))
         if inject_fault:
             inject.append((rng.below(n + 1), self.gen_fault_stmts))
+        if self.base(ret)[0] in ("opt", "err"):
+            inject.append((rng.below(n + 1), lambda c: self.st_try(c) or []))
+        if not pure:
+            inject.append((n, lambda c: self.dump(c, 3)))
         body = self.gen_block(ctx, n, tail_ty=None if ret == VOID else ret, fresh_scope=False, inject=inject)
-        body.stmts = pre + body.stmts
+        touch = []
+        for pn, pt, va in params:
+            if va:
+                # recorded defect 'unused_varargs': a varargs parameter that the body never mentions panics codegen
+                # (no layout for its slice type) at the call; programs that did not opt in always read its length
+                if self.unused_varargs:
+                    self.use("unused_varargs")
+                else:
+                    touch.append(N("decl", name=self.fresh(), ty=USIZE, mut=False, init=N("len", e=N("var", name=pn, ty=("slice", pt)), ty=USIZE), annotate=True))
+        body.stmts = touch + pre + body.stmts
         f.body = body
         return f
 
@@ -290,8 +308,8 @@ class Gen(ExprGen):
         else:
             self.use("main_void")
         ctx = Ctx("main", ret, False)
-        ctx.budget = 32
-        n = rng.range(6, 22)
+        ctx.budget = 22
+        n = rng.range(5, 16)
         inject = []
         if self.fault and not self.fault_done_planned():
             inject.append((rng.range(1, n), self.gen_fault_stmts))
@@ -302,9 +320,24 @@ class Gen(ExprGen):
     def fault_done_planned(self):
         return self.fault_done
 
+    def dump(self, ctx, k):
+        """prints of up to k scalar designators that are visible here (final state of the function)"""
+        ps = self.paths(ctx, self.scalar_printable, dyn=False)
+        ps = [x for x in ps if x[0].k != "lit" and self.root_kind(ctx, x[0]) != "global"]
+        self.rng.shuffle(ps)
+        return [N("print", id=self.new_id(), e=e) for e, t in ps[:k]]
+
+    def root_kind(self, ctx, e):
+        name = self.root_name(e)
+        for v in self.visible(ctx):
+            if v.name == name:
+                return v.kind
+        return None
+
     def main_final(self, ctx, out):
-        """last statements of main: call what was never called, then the exit status"""
+        """last statements of main: call what was never called, the final state, then the exit status"""
         rng = self.rng
+        out.extend(self.dump(ctx, 5))
         for f in self.prog.funcs:
             if f.name not in self.called and ctx.budget > -20:
                 pre = []
@@ -461,7 +494,7 @@ class Gen(ExprGen):
 
     def shadow_name(self, ctx):
         """name of a visible local that may be shadowed (never a loop counter or a parameter)"""
-        c = [v.name for v in self.visible(ctx) if v.kind == "local"]
+        c = [v.name for v in self.visible(ctx) if v.kind == "local" and v.name not in ctx.deferred_names]
         return self.rng.pick(c) if c else None
 
     def st_shadow(self, ctx):
@@ -573,9 +606,9 @@ class Gen(ExprGen):
             self.declare(ctx, name, ty, False)
             return [N("decl", name=name, ty=ty, mut=False, init=lam, annotate=False)]
         init = self.gen_fnval(ctx, ty)
-        mut = self.rng.chance(1, 2)
+        mut = self.rng.chance(1, 2) and init.k != "lambda"     # `name :: (..) {..};` is the only spelling used for lambdas
         self.declare(ctx, name, ty, mut)
-        return [N("decl", name=name, ty=ty, mut=mut, init=init, annotate=True)]
+        return [N("decl", name=name, ty=ty, mut=mut, init=init, annotate=init.k != "lambda")]
 
     def gen_lambda(self, ctx, ty):
         """non-capturing: its body only sees its own parameters and the globals"""
@@ -752,7 +785,7 @@ class Gen(ExprGen):
     def gen_cond(self, ctx):
         """a condition; outside pure functions sometimes `pure && impure_call()` to observe short-circuiting"""
         c = self.gen_bool(ctx, 2)
-        if not ctx.pure and self.rng.chance(1, 4):
+        if not ctx.pure and self.rng.chance(1, 2):
             fs = [f for f in self.prog.funcs if f.ret == BOOL and not f.pure and not f.rec]
             if fs:
                 f = self.rng.pick(fs)
@@ -790,7 +823,7 @@ class Gen(ExprGen):
         cname = self.fresh("c")
         self.declare(ctx, cname, t, True, kind="counter")
         cv = N("var", name=cname, ty=t)
-        label = self.fresh("l") if rng.chance(1, 3) else None
+        label = self.fresh("l") if rng.chance(1, 2) else None
         ctx.targets.append({"kind": "loop", "label": label, "vty": None})
         inc = N("assign", place=cv, op="+=", e=lit(t, 1))
         if body_fn is not None:
@@ -870,7 +903,9 @@ class Gen(ExprGen):
         ps = self.paths(ctx, self.scalar_printable, place_only=True, dyn=False)
         ps = [x for x in ps if self.depth_of(x[0]) <= 1]
         if ps and self.rng.chance(2, 3):
-            s = N("print", id=self.new_id(), e=self.rng.pick(ps)[0])
+            e = self.rng.pick(ps)[0]
+            ctx.deferred_names.add(self.root_name(e))      # never shadowed afterwards: which binding would the defer see?
+            s = N("print", id=self.new_id(), e=e)
         else:
             s = N("ev", id=self.new_id())
         ctx.defers += 1
@@ -887,7 +922,7 @@ class Gen(ExprGen):
             if t["label"]:
                 opts.append((("break_l", t), 2))
                 if t["kind"] == "loop":
-                    opts.append((("continue_l", t), 1))
+                    opts.append((("continue_l", t), 3))
         if not ctx.in_expr:
             opts.append(("return", 2 if ctx.targets else 1))
         if not opts:
@@ -908,7 +943,9 @@ class Gen(ExprGen):
             if ctx.ret != VOID:
                 hp = []
                 ctx.hoist.append(hp)
+                ctx.scopes.append([])      # hoisted declarations live inside the if-block
                 val = self.ret_value(ctx)
+                ctx.scopes.pop()
                 ctx.hoist.pop()
                 b.stmts = pre + hp
             else:
@@ -923,7 +960,9 @@ class Gen(ExprGen):
                 hp = []
                 if t["vty"] is not None:
                     ctx.hoist.append(hp)
+                    ctx.scopes.append([])
                     val = self.gen_expr(ctx, t["vty"], 1)
+                    ctx.scopes.pop()
                     ctx.hoist.pop()
                     self.use("break_value")
                 pre = pre + hp
@@ -971,6 +1010,12 @@ class Gen(ExprGen):
         arms = []
         for target, tag in named:
             bt = self.bind_ty(sty, target)
+            if bt is not None and target[0] == "type" and self.base(bt)[0] == "array":
+                # recorded defect 'array_arm_binding': using the value bound by an arm `[N]T => ..` panics the checker
+                if self.array_arm_binding:
+                    self.use("array_arm_binding")
+                else:
+                    bt = None
             binds = [Var(bind, bt, False)] if bt is not None else []
             arms.append((target, self.arm_block(ctx, vty, binds)))
         if len(named) < len(order):
@@ -1051,7 +1096,16 @@ class Gen(ExprGen):
             elif fs:
                 src = self.gen_call(ctx, self.rng.pick(fs), 1)
         if src is None:
-            return None
+            if not ctx.hoist:
+                return None
+            if rb[0] == "opt":
+                t = ("opt", self.scalar_ty())
+            else:
+                u = self.scalar_ty()
+                if u == rb[1]:
+                    return None
+                t = ("err", rb[1], u)
+            src = var(self.hoist_decl(ctx, t, self.gen_expr(ctx, t, 1), mut=self.rng.chance(1, 2)))
         sb = self.base(src.ty)
         pt = sb[1] if sb[0] == "opt" else sb[2]
         self.use("try_opt" if sb[0] == "opt" else "try_err")
